@@ -80,6 +80,11 @@ def run(chk, prog):
         else:
             kind = "config graph"
             what = "configuration graph"
+        if not bounded and crate == "redproxy_rs" and all("LoadBalanceConnector" in n for n in names):
+            okc, dc = anchors.check(prog, "lb_cycle_check")
+            if okc:
+                bounded = True
+                what = "configuration graph, cut by the cycle check in verify(): " + dc
         chk.instance("REC", where, "recursion cycle [%s] is depth-bounded" % label, bounded, "depth driven by %s" % what)
         if not bounded:
             chk.finding("REC", comp[0], "scc", "", where,
